@@ -48,10 +48,31 @@
         TOGETHER WITH A NON-NIL ERROR IS NOT MODELLED (the empty slice stands for it); frame.go and
         frame_json.go discard it.  The returned slice is freshly allocated (no aliasing).
       - errors are nil / non-nil (GoSem.v); [err != nil] on a local error variable is [negb err].
+    append-style byte building (group [render]: pkg/cantext/encode.go, pkg/canjson/encode.go)
+      - [go_append a x]: the CONTENTS of [append(a, x...)] (x a string or a []byte) and of
+        [append(a, b1, .., bn)] (bytes): a ++ x.  Accepted only in the shape [v = append(v, ...)] /
+        [v = strconv.AppendXxx(v, ...)] / [v = F(v, ...)] (F a translated function returning []byte) on a
+        []byte variable v - a local bound to make(...) or a []byte PARAMETER, which is then a rebound
+        local: the function returns the final contents.  Whether the result shares the argument's
+        backing array (it does when the capacity suffices) is NOT represented: a caller that keeps
+        using the old slice header could observe it; Gen/Render.v says the same about its buffers.
+      - [go_strconv_FormatUint_10 / _16 n]: [strconv.FormatUint(n, 10 / 16)] = the printers
+        [RenderNum.dec_u] / [RenderNum.hex_u] THE HAND MODEL Gen/Render.v USES (minimal digits, lower
+        case); [go_strconv_FormatInt_10] = [RenderNum.dec_s]; [go_strconv_FormatBool] =
+        [RenderNum.bool_text] ("true" / "false"); [strconv.AppendUint(buf, n, b)] =
+        [go_append buf (FormatUint n b)], likewise AppendInt / AppendBool.  Other bases are rejected.
+      - [strconv.FormatFloat(f, 'g' | 'f', -1, 64)] and [strconv.AppendFloat(buf, f, 'g' | 'f', -1, 64)]
+        (shortest text that parses back to f) HAVE NO MODEL: they are ORACLES.  Every translated
+        function that uses one takes [o_strconv_FormatFloat_g] / [o_strconv_FormatFloat_f : Z -> go_string]
+        as a leading parameter, applied to the BIT PATTERN [go_math_Float64bits f] (one NaN pattern) -
+        exactly as Gen/Render.v carries them (segments [FloatG bits] / [FloatF bits], rendered by the
+        Section variables [rG] / [rF] of Gen/RenderSpec.v).  The T_ lemmas hold for every such function.
+        Any other format, precision or bit size is rejected.
+      - [string(b)], [[]byte(s)] and conversions between string types (json.Number) keep the bytes.
 
     DEFINITIONS ONLY. *)
 From Coq Require Import ZArith List Bool.
-From CanVerif Require Import Base.Dec Base.Hex Translate.GoSem.
+From CanVerif Require Import Base.Dec Base.Hex Translate.GoSem Gen.RenderNum.
 Import ListNotations.
 Open Scope Z_scope.
 
@@ -99,3 +120,10 @@ Definition go_hex_DecodeString (s : go_string) : go_bytes * err :=
   | Some b => (b, err_nil)
   | None => (bytes_nil, err_nonnil)
   end.
+
+(** * append-style byte building and the strconv printers of the renderers (group render) *)
+Definition go_append (a x : list Z) : go_bytes := a ++ x.
+Definition go_strconv_FormatUint_10 (n : Z) : go_string := dec_u n.
+Definition go_strconv_FormatUint_16 (n : Z) : go_string := hex_u n.
+Definition go_strconv_FormatInt_10 (n : Z) : go_string := dec_s n.
+Definition go_strconv_FormatBool (b : bool) : go_string := bool_text b.
